@@ -4,12 +4,12 @@ CONSTANTS
   NMeth = 3
   BadM = 0
   MaxFail = 0
-  CallsPer = 1
-  SwapLast = FALSE
-  RestoreOnFail = FALSE
-  Peekers = {}
+  CallsPer = 2
+  SwapLast = TRUE
+  RestoreOnFail = TRUE
+  Peekers = {1, 2}
   AtomicAnalysis = TRUE
-  UseLock = FALSE
+  UseLock = TRUE
 PROPERTY AnswersCorrect
 PROPERTY RecoversAfterRemoval
 INVARIANT EachAsAlone
